@@ -126,6 +126,12 @@ pub trait Prop: Sync {
     fn watchdog_s(&self) -> u64 {
         60
     }
+    /// CPU-time watchdog per run: a run thread that has burnt this much CPU time is spinning (runs
+    /// take milliseconds). Unlike the wall-clock watchdog it does not depend on machine load, so it
+    /// applies unchanged to confirmations and minimisation candidates.
+    fn cpu_limit_s(&self) -> u64 {
+        20
+    }
     /// a feature of the scenario that narrows violation signatures (engine SCHED: which callbacks are installed)
     fn qualifier(&self, _scenario: &Value) -> String {
         String::new()
@@ -202,12 +208,30 @@ pub fn run_on_pristine_thread(
             let _ = tx.send((rr, cov));
         })
         .expect("spawn run thread");
-    match rx.recv_timeout(timeout) {
-        Ok(x) => {
-            let _ = h.join();
-            Some(x)
+    use std::os::unix::thread::JoinHandleExt;
+    let mut cid: libc::clockid_t = 0;
+    let have_cpu_clock = unsafe { libc::pthread_getcpuclockid(h.as_pthread_t(), &mut cid) } == 0;
+    let cpu_limit = prop.cpu_limit_s() as i64;
+    let started = std::time::Instant::now();
+    loop {
+        match rx.recv_timeout(Duration::from_millis(200)) {
+            Ok(x) => {
+                let _ = h.join();
+                return Some(x);
+            }
+            Err(mpsc::RecvTimeoutError::Disconnected) => return None,
+            Err(mpsc::RecvTimeoutError::Timeout) => {
+                if started.elapsed() > timeout {
+                    return None;
+                }
+                if have_cpu_clock {
+                    let mut ts = libc::timespec { tv_sec: 0, tv_nsec: 0 };
+                    if unsafe { libc::clock_gettime(cid, &mut ts) } == 0 && ts.tv_sec as i64 >= cpu_limit {
+                        return None;
+                    }
+                }
+            }
         }
-        Err(_) => None,
     }
 }
 
